@@ -231,6 +231,9 @@ pub fn check(f: &Facts, stats: &mut Stats) -> CheckResult {
     if m.anc.iter().any(|a| a.len() > 30) {
         stats.label("ancestors>30");
     }
+    if m.parents.iter().any(|p| p.len() > 10) {
+        stats.label("direct-parents>10");
+    }
     if nontrivial {
         stats.label("nontrivial");
         stats.nontrivial(f.canonical_hash());
@@ -249,7 +252,7 @@ impl Property for C04 {
         "C04"
     }
     fn rule(&self) -> String {
-        "Generated: annotated ontologies built through the Builder or, with obsolete / replaced terms, through own v3 bytes (<=12 terms quick / 20 thorough, 0-8 records per kind, kinds with zero records, terms without annotations, several roots, detached terms); ALL ordered pairs x 8 algorithms x 3 kinds. Oracle: the documented formulas evaluated in f64 on model quantities (ancestor sets, IC = -ln(n/N), BFS distance, inherited record sets) with the documented special cases; tolerance 1e-4 relative (f32 result); exact checks: not NaN, finite, >= 0, Builtins::X / concrete struct / similarity_score bit-identical, Builtins::new(name) selects the same variant for every documented alias; symmetry within 1e-6. evaluations = (pair, algorithm, kind) triples. Non-trivial = ontology has a pair of distinct terms with at least one side annotated for the kind; all pair classes (identical, ancestor-descendant, siblings, cousins, no common ancestor; both/one/none annotated) must occur in a run. Distinct by canonical facts.".into()
+        "Generated: annotated ontologies built through the Builder or, with obsolete / replaced terms, through own v3 bytes (<=12 terms quick / 20 thorough, one case in 20 with 13-18 terms in fan-in shapes so that terms have 11-16 direct parents, 0-8 records per kind, kinds with zero records, terms without annotations, several roots, detached terms); ALL ordered pairs x 8 algorithms x 3 kinds. Oracle: the documented formulas evaluated in f64 on model quantities (ancestor sets, IC = -ln(n/N), BFS distance, inherited record sets) with the documented special cases; tolerance 1e-4 relative (f32 result); exact checks: not NaN, finite, >= 0, Builtins::X / concrete struct / similarity_score bit-identical, Builtins::new(name) selects the same variant for every documented alias; symmetry within 1e-6. evaluations = (pair, algorithm, kind) triples. Non-trivial = ontology has a pair of distinct terms with at least one side annotated for the kind; all pair classes (identical, ancestor-descendant, siblings, cousins, no common ancestor; both/one/none annotated) must occur in a run. Distinct by canonical facts.".into()
     }
     fn assumptions(&self) -> Vec<String> {
         vec![
@@ -265,7 +268,7 @@ impl Property for C04 {
         }
     }
     fn required_labels(&self, _tier: Tier) -> Vec<&'static str> {
-        vec!["nontrivial", "obsolete-terms", "ancestors>30", "pair:identical", "pair:ancestor-descendant", "pair:siblings", "pair:cousins", "pair:no-common-ancestor", "both-annotated", "one-annotated", "none-annotated", "records>32767", "depth>255"]
+        vec!["nontrivial", "obsolete-terms", "ancestors>30", "pair:identical", "pair:ancestor-descendant", "pair:siblings", "pair:cousins", "pair:no-common-ancestor", "both-annotated", "one-annotated", "none-annotated", "records>32767", "depth>255", "direct-parents>10"]
     }
     fn run_generated(&self, tier: Tier, seed: u64, n: u64, stats: &mut Stats) -> Option<(Value, Failure)> {
         let max = if tier == Tier::Quick { 12 } else { 20 };
@@ -275,6 +278,8 @@ impl Property for C04 {
             26 => gen::facts(GenCfg::small().terms(1, max).recs(8)),
             13 => gen::facts(GenCfg::small().terms(2, max).recs(8).standard().with_flags(true).names(crate::gen::NameMode::Capped)),
             1 => gen::facts(GenCfg::small().terms(32, 40).recs(6).shapes(&[1, 3])),
+            // terms with 11-16 direct parents (fan-in and wide-diamond shapes; a term stores 10 parents inline)
+            4 => gen::facts(GenCfg::small().terms(13, 18).recs(4).shapes(&[5, 6])),
         ];
         run_typed(proptest::strategy::Strategy::boxed(strategy), seed, n, stats, check)
     }
